@@ -29,6 +29,7 @@ type c14Case struct {
 	Companion bool              `json:"companion"` // blob paths: add an unrelated event to the batch
 	// Repairable: blob paths: the batch also holds a failure message with an invalid UTF-8 byte (repair comes first)
 	Repairable bool `json:"repairable,omitempty"`
+	JSONBlobs  bool `json:"json_blobs,omitempty"` // blob paths: JSON-encoded event blobs
 }
 
 func c14Enum(d protoreflect.MessageDescriptor) []vfshared.Path {
@@ -84,6 +85,9 @@ func c14Run(c c14Case) error {
 		return fmt.Errorf("HARNESS: path %q not found", c.Path)
 	}
 	msg := c14Build(*path, c.Keys, c.Values, c.Companion)
+	if c.JSONBlobs {
+		vfshared.ReencodeBlobsAsJSON(msg.ProtoReflect())
+	}
 	ref := msg
 	if c.Repairable && m.Service == "admin" {
 		var n int
@@ -192,13 +196,16 @@ func c14Classify(st *vfshared.Stats, c c14Case, tg c14Target) {
 	if c.Repairable {
 		cl = append(cl, "blob_needs_utf8_repair_first")
 	}
-	st.Case(vfshared.Fingerprint(c.Method, c.Side, c.Path, c.Keys, c.SAMap, c.WithNS, c.Companion, c.Repairable), nontrivial, cl...)
+	if c.JSONBlobs {
+		cl = append(cl, "json_encoded_blob")
+	}
+	st.Case(vfshared.Fingerprint(c.Method, c.Side, c.Path, c.Keys, c.SAMap, c.WithNS, c.Companion, c.Repairable, c.JSONBlobs), nontrivial, cl...)
 	if nontrivial && st.WantSample() {
 		st.Sample(c)
 	}
 }
 
-const c14Rule = "every structural path (descriptors, through event blobs) from every request/response of both services to a search-attribute container (SearchAttributes message or bare map<string,Payload> named search_attributes); key sets mix mapped keys, unmapped keys and near-misses and never contain a key equal to a mapping target that is not itself mapped (stated precondition); values are payloads whose metadata mention the key; AdminService: real SA translator == reference (keys renamed, values and everything else equal); WorkflowService: translator must not match and must leave the message byte-identical; non-trivial = admin path through a blob or bare-map form with >=1 mapped and >=1 unmapped key; blob paths additionally with an unrelated companion event and with a failure message holding invalid UTF-8 in the same batch (repair comes first); distinct = (method, side, path, keys, mapping, with-ns, companion, repairable)"
+const c14Rule = "every structural path (descriptors, through event blobs) from every request/response of both services to a search-attribute container (SearchAttributes message or bare map<string,Payload> named search_attributes); key sets mix mapped keys, unmapped keys and near-misses and never contain a key equal to a mapping target that is not itself mapped (stated precondition); values are payloads whose metadata mention the key; AdminService: real SA translator == reference (keys renamed, values and everything else equal); WorkflowService: translator must not match and must leave the message byte-identical; non-trivial = admin path through a blob or bare-map form with >=1 mapped and >=1 unmapped key; blob paths additionally with an unrelated companion event and with a failure message holding invalid UTF-8 in the same batch (repair comes first) and with JSON-encoded blobs; distinct = (method, side, path, keys, mapping, with-ns, companion, repairable)"
 
 func TestVF_C14_Paths(t *testing.T) {
 	const part = "paths"
@@ -236,15 +243,15 @@ func TestVF_C14_Paths(t *testing.T) {
 		}
 		for _, keys := range keySets {
 			_, _, _, _, viaBlob, _ := tg.p.Features()
-			for _, variant := range []int{0, 1, 2, 3} {
-				companion, repairable := variant&1 == 1, variant&2 == 2
+			for _, variant := range []int{0, 1, 2, 3, 4} {
+				companion, repairable, jsonBlobs := variant&1 == 1, variant&2 == 2, variant&4 == 4
 				if variant != 0 && !viaBlob {
 					continue
 				}
 				if repairable && tg.m.Service != "admin" {
 					continue
 				}
-				c := c14Case{Method: tg.m.FullMethod, Side: tg.side, Path: tg.p.String(), SAMap: saMap, Keys: keys, Values: [][]byte{[]byte(`"v1"`), []byte(`"CustomKeywordField"`)}, WithNS: len(keys) == 2, Companion: companion, Repairable: repairable}
+				c := c14Case{Method: tg.m.FullMethod, Side: tg.side, Path: tg.p.String(), SAMap: saMap, Keys: keys, Values: [][]byte{[]byte(`"v1"`), []byte(`"CustomKeywordField"`)}, WithNS: len(keys) == 2, Companion: companion, Repairable: repairable, JSONBlobs: jsonBlobs}
 				if err := c14Run(c); err != nil {
 					c14Fail(t, st, part, c, err)
 				}
